@@ -45,6 +45,16 @@ FITS = {
            "range_x": {"__np__": [-7.123456789012345e-07,
                                   4.987654321098765e-07]}},
 }
+# the same fit written with a don't-care setting spelled out: same
+# curve, same fit (-> accepted as "the same curve again")
+FITS["f7"] = {"model_key": "hertz_para", "optimal_fit_num_samples": 50}
+SAME_FIT = {"f7": "f1"}
+
+
+def fit_class(f):
+    return SAME_FIT.get(f, f)
+
+
 USERS = {"u1": ("alice", 5, "ok"), "u2": ("bob", 2.5, "hm, é")}
 
 
@@ -263,7 +273,7 @@ class Driver(hist.Driver):
                 if changed:
                     w.viol.append(("entry-altered", f"storing a new curve "
                                    f"altered existing groups {changed}"))
-        elif w.ref[key]["fit"] == f:
+        elif fit_class(w.ref[key]["fit"]) == fit_class(f):
             if exc is not None:
                 w.viol.append(("save-raises", f"re-saving the same fit "
                                f"raised {exc!r}"))
@@ -389,7 +399,7 @@ class Driver(hist.Driver):
 DRIVERS = {
     "saves": Driver(),
     "saves_wide": Driver(curves=("A0", "B1", "C0"),
-                         fits=("f1", "f4", "f5", "f6"), users=("u1",),
+                         fits=("f1", "f4", "f5", "f6", "f7"), users=("u1",),
                          name="saves_wide"),
 }
 
